@@ -1,11 +1,12 @@
 #!/usr/bin/env python3
 """tools/theorem_table.py — regenerates the table of DESIGN.md §10.3 (between the markers) from lean/registry.json."""
 import json
+import os
 import re
 
-import os
-ROOT = os.path.dirname(os.path.dirname(os.path.abspath(__file__)))
-r = json.load(open(os.path.join(ROOT, "lean/registry.json")))
+ROOT = os.path.dirname(os.path.dirname(os.path.abspath(__file__)))   # the tree this copy lives in (a builder's worktree, or /verif)
+
+r = json.load(open(os.path.join(ROOT, "lean", "registry.json")))
 rows = []
 total = 0
 for k in sorted(r):
